@@ -33,9 +33,11 @@ def plan(tier, seed):
             # process events without any callback of ours: a terminated process must be processed even when nobody waits yet
             dict(depth=d - 1, ops=1, nproc=2, noprobe=1), dict(depth=d - 1, ops=3, nproc=2, noprobe=1),
             dict(depth=d - 1, ops=4, nproc=2, liberal=1), dict(depth=d - 1, ops=4, nproc=2), dict(depth=d - 1, ops=1, nproc=2, duck=1), dict(depth=d, ops=5, nproc=2),
+            # failures translated on the way up: `raise Other(...) from received` in every process that does not handle one
+            dict(depth=d - 1, ops=1, nproc=2, translate=1), dict(depth=d - 1, ops=3, nproc=2, translate=1),
             # one process consuming 1200 already processed events in a row, then 1200 fresh ones (a single long execution)
             dict(endurance=1200)]
-    return {"cfgs": cfgs, "budget": None, "bound": "D<=%d with 2 initial processes (alphabets: one / two shared events; falsy returns + non-Exception BaseException at D-1), D<=%d with 3; <=4 processes" % (d, d - 1)}
+    return {"cfgs": cfgs, "budget": None, "bound": "D<=%d with 2 initial processes (alphabets: one / two shared events; falsy returns + non-Exception BaseException at D-1, both also with unhandled failures re-raised `from` as another exception), D<=%d with 3; <=4 processes" % (d, d - 1)}
 
 
 def endurance(cfg):
@@ -80,7 +82,7 @@ def execute(ch, cfg):
     if cfg.get("endurance"):
         return endurance(cfg)
     k = KC.K(ch, {1: OPS, 2: OPS2, 3: OPS3, 4: OPS4, 5: OPS5}[cfg["ops"]], cfg["depth"], nproc=cfg["nproc"], reaction=False, probe_procs=not cfg.get("noprobe"),
-             liberal_values=bool(cfg.get("liberal")), duck=bool(cfg.get("duck"))).run()
+             liberal_values=bool(cfg.get("liberal")), duck=bool(cfg.get("duck")), translate=bool(cfg.get("translate"))).run()
     res = Result()
     res.digest = k.digest()
     viol, nt = KC.check_delivery(k)
